@@ -109,12 +109,14 @@ def main(argv):
         tier = argv[argv.index("--tier") + 1]
         ids = [i for i in ids if i != tier]
     all_checks = "--all-checks" in argv
+    no_write = "--no-write" in argv  # (robustness passes at other VERIF_SEED values leave meta.json alone)
     if not ids:
         ids = sorted(os.listdir(SEEDED))
     bad = 0
     for sid in ids:
         meta = verify_one(sid, all_checks, tier)
-        json.dump(meta, open(os.path.join(SEEDED, sid, "meta.json"), "w"), indent=1)
+        if not no_write:
+            json.dump(meta, open(os.path.join(SEEDED, sid, "meta.json"), "w"), indent=1)
         v = meta["verified"]
         status = "INVALID" if not v.get("ok") else ("caught" if any(k.startswith(meta["property"]) for k in v["caught_by"]) else "MISSED")
         print(json.dumps({"id": sid, "property": meta["property"], "status": status, "caught_by": v.get("caught_by"), "why": v.get("why"), "tests": v.get("tests_with_patch"), "demo": [v.get("demo_unchanged_rc"), v.get("demo_patched_rc")]}))
